@@ -69,7 +69,7 @@ pub static DROPS: AtomicU64 = AtomicU64::new(0);
 
 pub fn reg_capacity() -> usize {
     if cfg!(miri) {
-        1 << 8
+        1 << 11
     } else {
         1 << 21
     }
